@@ -519,6 +519,16 @@ def _run(report):
         report.function(f"symplyphysics.core.dimensions.collect_quantity.{f}", src)
     from . import c05_quantity
     c05_quantity.run(report)
+    from . import c04 as _c04
+    _c04.shared_callee_obligations(report, UNIT)
+    # bounded audit of the model: the executable C05 contract against the real collector on enumerated real trees
+    from ..contracts import refimpl as _ri
+    budget = 20000 if report.tier == "thorough" else 2500
+    t_, why_, n_ = _ri.search_collect_quantity(seed(), budget, 2)
+    fails_ = [] if t_ is None else [{"name": f"{UNIT}/audit/collect_quantity/first-disagreement", "detail": f"{t_}: {why_}", "signature": str(t_),
+                                     "replay": {"reproduced": True, "script": f"from vf.contracts.refimpl import replay_tree\nreplay_tree('collect_quantity', {seed()}, {n_})\n"}}]
+    report.add_bounded("executable C05 contract (SI value and dimension by structural recursion, refusals) vs the real collect_quantity_factor_and_dimension on enumerated real trees "
+                       "(sums, products, powers, abs, min/max, functions of one and two arguments; 0 / +-oo / NaN terms)", f"trees of depth <= 2 over 26 leaves, first {budget} in a seeded interleaved order", n_, t_ is None, fails_)
     report.extra["dispatch_table_entries"] = ndispatch
     report.extra["inlined_closures"] = sorted(set().union(*[x.inlined for x in execs]))
     report.extra["callee_contracts_used"] = sorted(set().union(*[x.used_contracts for x in execs]))
